@@ -55,7 +55,7 @@ type Contracts struct {
 	Errors []string
 }
 
-var clauseKW = map[string]bool{"requires": true, "ensures": true, "xensures": true, "panics": true,
+var clauseKW = map[string]bool{"assumes": true, "requires": true, "ensures": true, "xensures": true, "panics": true,
 	"modifies": true, "ghost": true, "loop": true, "serves": true, "inline": true, "dataplane": true,
 	"dependency": true, "trusted": true, "assert": true, "callback": true, "noinline": true, "pure": true, "typeparams": true}
 
